@@ -38,6 +38,9 @@ def run(repo: Repo, rep: Report, tier: str) -> None:
     rep.rule("scoped", "_serve_request empties cancel_req before every SCP run and after it on the normal path")
     rep.rule("writers", "cancel_req is written only by the four known functions")
     rep.rule("not-queued", "a stored C-CANCEL is not put on msg_queue as well")
+    from ..delegate import delegate as _delegate23
+    rep.rule("cancel-id-range", "a C-CANCEL can name every Message ID 0 .. 65535 (C17's numeric-range on the C_CANCEL primitive)")
+    _delegate23(repo, rep, tier, "C17", ("numeric-range",), "cancel-id-range", "a C-CANCEL naming that Message ID cannot be built or converted: the operation with that ID can no longer be cancelled (the association is aborted instead)", only=lambda f: "C_CANCEL" in (f.get("function") or "") or "C_CANCEL" in str(f.get("key")))
     dm = repo.mod("dimse")
     rp = repo.func("dimse", "DIMSEServiceProvider.receive_primitive")
     fq = "dimse.DIMSEServiceProvider.receive_primitive"
